@@ -41,13 +41,22 @@ type Plan struct {
 	MuteData     bool // never answer data primaries
 	StopReading  bool // stop reading after the select exchange (the library's next write stalls)
 	DropAfter    time.Duration // >0: close the peer end this long after the connection came up
+	StallIn      int           // go SILENT (socket stays open, keep reading) after WRITING this many bytes (-1: never)
+	ReplyBody    []byte        // body of the data replies the peer sends
 }
+
+// CloseWatchdog: a Close that has not returned after this long is reported as hung and abandoned.
+const CloseWatchdog = 15 * time.Second
+
+// Refused is a dial that fails at once; Hang one that fails after the connect timeout.
+func Refused() Plan { p := Normal(); p.DialErr = true; return p }
+func Hang() Plan    { p := Normal(); p.DialHang = true; return p }
 
 // HangCap is the simulated OS connect timeout of a dial that hangs.
 const HangCap = 150 * time.Millisecond
 
 // Normal is a peer that answers everything.
-func Normal() Plan { return Plan{CutOut: -1, CutIn: -1} }
+func Normal() Plan { return Plan{CutOut: -1, CutIn: -1, StallIn: -1} }
 
 // ---------------------------------------------------------------------------------------------
 // tracked conns / listeners
@@ -117,6 +126,7 @@ type Rig struct {
 	lsns    []*plistener
 	peers   []*Peer
 	dialN   int
+	listenN int
 	planFn  func(n int) Plan // plan for the n-th dial (active) or n-th peer connection (passive)
 	curLis  *plistener
 	lisCh   chan *plistener
@@ -273,7 +283,8 @@ func (r *Rig) dial(ctx context.Context, _, _ string) (net.Conn, error) {
 
 func (r *Rig) listen(ctx context.Context, _, _ string) (net.Listener, error) {
 	r.mu.Lock()
-	n := len(r.lsns)
+	n := r.listenN
+	r.listenN++
 	r.mu.Unlock()
 	// the n-th listen call; a ListenErr plan is consulted through planFn(-1-n) so that listen
 	// failures and peer connections are scripted independently
@@ -367,6 +378,8 @@ type Peer struct {
 	closedAt time.Time
 	closed   bool
 	selected bool
+	muted    bool
+	mutedAt  time.Time
 	wmu      sync.Mutex
 	DataSeen atomic.Int64 // data primaries received
 	LtSeen   atomic.Int64 // Linktest.req received
@@ -404,6 +417,13 @@ func (p *Peer) Close() {
 	p.mu.Unlock()
 	p.r.add(Ev{K: "X", ID: int64(p.N), N: [4]int64{int64(in), int64(out)}})
 	_ = p.c.Close()
+}
+
+// MutedAt reports when the peer went silent (zero if it has not).
+func (p *Peer) MutedAt() time.Time {
+	p.mu.Lock()
+	defer p.mu.Unlock()
+	return p.mutedAt
 }
 
 // ClosedAt reports when the peer end was closed (zero if still open).
@@ -464,6 +484,30 @@ func (p *Peer) readN(n int) ([]byte, bool) {
 func (p *Peer) write(b []byte) bool {
 	p.wmu.Lock()
 	defer p.wmu.Unlock()
+	if p.plan.StallIn >= 0 {
+		p.mu.Lock()
+		left := p.plan.StallIn - p.out
+		muted := p.muted
+		p.mu.Unlock()
+		if muted {
+			return true // silent: the frame is never sent, the socket stays open
+		}
+		if len(b) >= left {
+			if left > 0 {
+				_ = p.c.SetWriteDeadline(time.Now().Add(2 * time.Second))
+				k, _ := p.c.Write(b[:left])
+				p.mu.Lock()
+				p.out += k
+				p.mu.Unlock()
+			}
+			p.mu.Lock()
+			p.muted = true
+			p.mutedAt = time.Now()
+			p.mu.Unlock()
+			p.r.add(Ev{K: "Z", ID: int64(p.N), N: [4]int64{int64(p.plan.StallIn)}})
+			return true
+		}
+	}
 	if p.plan.CutIn >= 0 {
 		p.mu.Lock()
 		left := p.plan.CutIn - p.out
@@ -600,7 +644,7 @@ func (p *Peer) run() {
 				if p.plan.MuteData {
 					continue
 				}
-				if !p.write(Enc(f.Sid, f.B2&0x7F, f.B3+1, 0, 0, f.Sys, nil)) {
+				if !p.write(Enc(f.Sid, f.B2&0x7F, f.B3+1, 0, 0, f.Sys, p.plan.ReplyBody)) {
 					return
 				}
 			}
@@ -727,7 +771,10 @@ func (r *Rig) Open(wait bool, timeout time.Duration) (res OpenRes) {
 	defer cancel()
 	t0 := time.Now()
 	var err error
-	func() {
+	hung := false
+	done := make(chan struct{})
+	go func() {
+		defer close(done)
 		defer func() {
 			if p := recover(); p != nil {
 				res.Panic = p
@@ -736,8 +783,16 @@ func (r *Rig) Open(wait bool, timeout time.Duration) (res OpenRes) {
 		}()
 		err = r.Conn.Open(ctx, mode)
 	}()
+	select {
+	case <-done:
+	case <-time.After(timeout + CloseWatchdog):
+		hung = true // abandoned: the rig must not be used further
+	}
 	res.Elapsed = time.Since(t0)
 	res.Class = ClassOpen(err)
+	if hung {
+		res.Class = "hung"
+	}
 	// A context error can also come out of the synchronous dial inside tr.Start (the dialer's ctx is
 	// the generation ctx, possibly with the connect timeout): that is a START failure (rolled back),
 	// not a failed wait (lifecycle running). Only the caller's own ctx distinguishes them.
@@ -754,7 +809,7 @@ func (r *Rig) Open(wait bool, timeout time.Duration) (res OpenRes) {
 		res.Class = "panic"
 	}
 	res.Solo, _, _ = r.end(c, func(solo bool) Ev {
-		return Ev{K: "OR", ID: c.id, Res: res.Class, Solo: solo && !ambiguous, N: [4]int64{int64(res.Elapsed)}}
+		return Ev{K: "OR", ID: c.id, Res: res.Class, Solo: solo && !ambiguous && !hung, N: [4]int64{int64(res.Elapsed)}}
 	})
 	return res
 }
@@ -781,7 +836,10 @@ func (r *Rig) Close() (res CloseRes) {
 	res.Blocked = r.blockingOpenInFlight()
 	t0 := time.Now()
 	var err error
-	func() {
+	hung := false
+	done := make(chan struct{})
+	go func() {
+		defer close(done)
 		defer func() {
 			if p := recover(); p != nil {
 				res.Panic = p
@@ -790,8 +848,15 @@ func (r *Rig) Close() (res CloseRes) {
 		}()
 		err = r.Conn.Close()
 	}()
+	select {
+	case <-done:
+	case <-time.After(CloseWatchdog):
+		hung = true // the call is abandoned (its goroutine leaks); the rig must not be used further
+	}
 	res.Elapsed = time.Since(t0)
 	switch {
+	case hung:
+		res.Class = "hung"
 	case res.Panic != nil:
 		res.Class = "panic"
 	case err == nil:
@@ -807,7 +872,7 @@ func (r *Rig) Close() (res CloseRes) {
 	// filled in below if nothing else started in the meantime
 	solo, seqAtEnd, logSeq := r.end(c, func(bool) Ev { return Ev{K: "CR", ID: c.id, Res: res.Class} })
 	r.gate.RUnlock()
-	if solo && res.Class != "panic" {
+	if solo && res.Class != "panic" && res.Class != "hung" {
 		r.gate.Lock()
 		r.callMu.Lock()
 		still := r.callSeq == seqAtEnd && len(r.inflight) == 0
